@@ -112,6 +112,13 @@ func (y *c13Sys) audit(inflight map[string]int) (string, string) {
 	for _, bi := range infos {
 		listed[bi.Name] += int(bi.ActiveConnections)
 	}
+	// what is published is about the backends there are: no entry for a name that is not
+	// registered (any more)
+	for name := range m.Backends {
+		if _, registered := listed[name]; !registered {
+			return "C13/metrics-entry-for-a-backend-that-is-not-registered", fmt.Sprintf("the metrics endpoint publishes an entry for backend %q, which is not registered (any more)", name)
+		}
+	}
 	for _, bi := range infos {
 		if listed[bi.Name] != inflight[bi.Name] {
 			return "C13/gauge/backends-endpoint-differs-from-in-flight", fmt.Sprintf("backend %s has %d requests in flight but /v1/backends publishes active_connections=%d (all entries of that name together)", bi.Name, inflight[bi.Name], listed[bi.Name])
@@ -133,7 +140,9 @@ var c13Events = []string{"req-ok", "req-404", "req-500", "req-refused", "req-abo
 	// b0 is removed and registered again under the same name and address (once per history),
 	// possibly while a request is in flight at it: the new backend starts with nothing on record,
 	// and what the old one still finishes is not booked to it
-	"readd-b0"}
+	"readd-b0",
+	// b1 is removed for good (once per history), possibly while a request is in flight at it
+	"remove-b1"}
 
 type c13Params struct {
 	Strategy         string
@@ -151,6 +160,7 @@ type c13Inst struct {
 	// readded: b0 has been removed and registered again; heldGone: the held request is in
 	// flight at the b0 that is gone
 	readded, heldGone bool
+	removed           bool
 }
 
 func (in *c13Inst) inflight() map[string]int {
@@ -231,6 +241,19 @@ func (in *c13Inst) Step(ev int) *vh.HViol {
 			in.y.orphans = 1
 		}
 		in.out = "re-registered"
+	case "remove-b1":
+		if in.removed {
+			in.out = "not-again"
+			break
+		}
+		in.removed = true
+		in.y.k.LB().RemoveBackend("b1")
+		if in.held != nil && in.held.At() == "b1.test:80" {
+			in.heldGone = true
+			in.y.orphans = 1
+		}
+		in.y.k.Forget("b1")
+		in.out = "removed"
 	case "add-same-name":
 		if in.twin || in.readded {
 			in.out = "already-added"
@@ -269,7 +292,7 @@ func (in *c13Inst) Fingerprint() string {
 	if in.held != nil {
 		h = in.held.At()
 	}
-	return in.y.k.ControlState() + "|held:" + h + fmt.Sprint("|added:", in.added, in.twin, in.readded, in.heldGone)
+	return in.y.k.ControlState() + "|held:" + h + fmt.Sprint("|added:", in.added, in.twin, in.readded, in.heldGone, in.removed)
 }
 
 func c13Spec(p c13Params, depth int) vh.HSpec {
